@@ -6,7 +6,7 @@ EXTENDS Registry
 
 CONSTANTS Enabled,   \* op classes that may occur in histories
           MaxGen,    \* bound on record creations
-          CfgSW, CfgNidl
+          CfgSW, CfgNidl, CfgSO
 
 VARIABLES st, enr
 
@@ -25,7 +25,7 @@ Ops ==
   (IF "Fetch" \in Enabled THEN FetchReqsN ELSE {}) \cup
   (IF "Rotate" \in Enabled THEN RotateOps ELSE {})
 
-Init == st = InitState([sw |-> CfgSW, nidl |-> CfgNidl]) /\ enr = [t \in Tokens |-> {}]
+Init == st = InitState([sw |-> CfgSW, nidl |-> CfgNidl, so |-> CfgSO]) /\ enr = [t \in Tokens |-> {}]
 
 TokenEnrol(o, res) == o.op = "Fetch" /\ o.n \in Tokens /\ ~HasWrapped(o) /\ ~HasRewrapped(o) /\ res = "issued"
 
